@@ -4,8 +4,10 @@ import (
 	"fmt"
 	"os"
 	"path/filepath"
+	"strings"
 	"testing"
 
+	"github.com/ipld/go-storethehash/store"
 	"github.com/ipld/go-storethehash/store/types"
 	"pgregory.net/rapid"
 )
@@ -93,6 +95,22 @@ func runC11(c C11Case) (SeqStats, c11Stats, *Violation) {
 	pc := newPointCounter()
 	o := seqOpts{TrackGC: true, FlushBeforeGC: true, FixedLowUse: c.LowUse, Points: pc}
 	o.Epilogue = func(r *seqRunner, step int) *Violation {
+		return c11Closure(r, step, c, pc, &cs, true)
+	}
+	st, v := runSeq(c.Seq, o)
+	return st, cs, v
+}
+
+// c11Closure is the kill phase and the GC rounds to a fixed point, run on an
+// open store. afterCleanHistory is false for stores recovered from a crash
+// image: superseded records whose freelist entry was lost in the crash look
+// live for ever by design (a space leak), so the "dead file is released"
+// clauses are not asserted there; the low-use drain, fixed-point and storage
+// clauses are.
+func c11Closure(r *seqRunner, step int, c C11Case, pc *pointCounter, csp *c11Stats, afterCleanHistory bool) *Violation {
+	cs := *csp
+	defer func() { *csp = cs }()
+	{
 		s := r.s
 		cfg := r.c.Cfg
 		mp := mhPrimaryOf(s)
@@ -267,7 +285,7 @@ func runC11(c C11Case) (SeqStats, c11Stats, *Violation) {
 					return viol("storage-grew-in-cycle|"+what+"|", step, "StorageSize grew from %d to %d during %s cycle %d (nothing was flushed)", before, after, what, n)
 				}
 			}
-			if n == 1 && unlinkClause {
+			if n == 1 && unlinkClause && afterCleanHistory {
 				if ph, err := readJSONHeader(filepath.Join(r.dir, dataBase+".info")); err == nil {
 					firstNow := uint32(hdrInt(ph, "FirstFile"))
 					left := fileSizes(r.dir, dataBase)
@@ -291,7 +309,8 @@ func runC11(c C11Case) (SeqStats, c11Stats, *Violation) {
 			var flWork types.Work
 			// The freelist's outstanding work is not exported through the
 			// store; relocations put one 12-byte entry each.
-			flWork = types.Work(12 * (pc.get("pgc.reap.relocate") - relocBefore))
+			// (two when the index refuses the move: the copy and the old record)
+			flWork = types.Work(24 * (pc.get("pgc.reap.relocate") - relocBefore))
 			if v := flush("cycle"); v != nil {
 				return v
 			}
@@ -322,6 +341,9 @@ func runC11(c C11Case) (SeqStats, c11Stats, *Violation) {
 		}
 		// ---- predicates at the fixed point
 		prim = fileSizes(r.dir, dataBase)
+		if !afterCleanHistory {
+			targetsP, targetsI = map[uint32]bool{}, map[uint32]bool{}
+		}
 		for n := range targetsP {
 			if sz, exists := prim[n]; exists && sz != 0 {
 				return viol("dead-primary-file-not-released|fixedpoint|", step, "primary file %d held no live key after the kill phase but still has %d bytes at the GC fixed point (%d rounds)", n, sz, cs.Cycles)
@@ -356,8 +378,6 @@ func runC11(c C11Case) (SeqStats, c11Stats, *Violation) {
 		}
 		return nil
 	}
-	st, v := runSeq(c.Seq, o)
-	return st, cs, v
 }
 
 func TestC11(t *testing.T) {
@@ -402,6 +422,25 @@ func TestC11(t *testing.T) {
 		}
 		return cl
 	}
+	runImageReplay := func(path string) *Violation {
+		var rp struct {
+			C11   C11Case           `json:"c11"`
+			Image map[string]string `json:"image_hex"`
+		}
+		readReplay(path, &rp)
+		v, _ := runC11OnImage(rp.C11, unhexImage(rp.Image))
+		ev.Record(rp.C11, true, "crash:recovered-store")
+		return judge(v)
+	}
+	if envReplay != "" && strings.Contains(string(readReplayRaw(envReplay).Case), "image_hex") {
+		for i := 0; i < 5; i++ {
+			if v := runImageReplay(envReplay); v != nil {
+				ev.Report(v, nil)
+				t.Fatalf("replay: %v", v)
+			}
+		}
+		return
+	}
 	if envReplay != "" {
 		var c C11Case
 		readReplay(envReplay, &c)
@@ -416,6 +455,12 @@ func TestC11(t *testing.T) {
 		return
 	}
 	for _, f := range regressFiles("C11") {
+		if strings.Contains(string(readReplayRaw(f).Case), "image_hex") {
+			if v := runImageReplay(f); v != nil && ev.Report(v, nil) {
+				t.Fatalf("regression case %s: %v", f, v)
+			}
+			continue
+		}
 		var c C11Case
 		readReplay(f, &c)
 		st, cs, v := runC11(c)
@@ -437,5 +482,91 @@ func TestC11(t *testing.T) {
 			rt.Fatalf("%v", v)
 		}
 	})
+	// Crash sub-campaign: the same closure on stores recovered from crash
+	// images (orphan records of an interrupted flush, lost freelist entries).
+	crashStores := 0
+	setRapidChecks(budget(700, 1500))
+	rapid.Check(t, func(rt *rapid.T) {
+		if pastDeadline() {
+			ev.Skip()
+			return
+		}
+		cc := genCrashCase(rt)
+		cc.Seq.Cfg.Primary = store.MultihashPrimary
+		for i := range cc.Seq.Keys {
+			cc.Seq.Keys[i].CidV0 = false
+		}
+		lowUse := []int{10, 25, 50, 75, 85}[rapid.IntRange(0, 4).Draw(rt, "lowuse")]
+		kill := rapid.SliceOfN(rapid.IntRange(0, 1), len(cc.Seq.Keys), len(cc.Seq.Keys)).Draw(rt, "killmode")
+		cr := runCrashWorkload(cc)
+		if !cr.workloadOK || cr.total == 0 {
+			ev.Class("crash:workload-failed(foreign)", 1)
+			return
+		}
+		for j, p := range cc.Picks[:3] {
+			var st crashState
+			if j%2 == 0 || len(cr.specs) == 0 {
+				st = cr.state(p % len(cr.rec.snaps))
+			} else {
+				spec := cr.specs[p%len(cr.specs)]
+				st = cr.rec.tornState(spec, (p/7919)%spec.count())
+			}
+			c := C11Case{Seq: SeqCase{Cfg: cc.Seq.Cfg, Keys: cc.Seq.Keys}, LowUse: lowUse, KillMode: kill}
+			v, cs := runC11OnImage(c, st.Image)
+			crashStores++
+			ev.Record(struct {
+				H string
+				T int
+			}{st.Image.hash(), lowUse}, cs.Relocated > 0 || cs.TargetPrimary > 0, "crash:recovered-store")
+			if v = judge(v); v != nil {
+				rp := struct {
+					C11   C11Case           `json:"c11"`
+					Point string            `json:"point"`
+					Torn  string            `json:"torn"`
+					Image map[string]string `json:"image_hex"`
+				}{c, st.Point, st.Torn, hexImage(st.Image)}
+				if ev.Report(v, rp) {
+					rt.Fatalf("%v", v)
+				}
+			}
+		}
+	})
+	ev.Extra["crash_recovered_stores"] = crashStores
 	ev.finish(t)
+}
+
+// runC11OnImage restores a crash image, opens it, takes what it reads as the
+// model and runs the closure.
+func runC11OnImage(c C11Case, img dirImage) (*Violation, c11Stats) {
+	var cs c11Stats
+	dir := newScratch("c11rec")
+	defer os.RemoveAll(dir)
+	img.writeTo(dir)
+	s, err := openStore(dir, c.Seq.Cfg)
+	if err != nil {
+		return nil, cs // C03's subject
+	}
+	r := &seqRunner{c: c.Seq, o: seqOpts{}, dir: dir, s: s, model: map[string][]byte{}, everFlushed: map[string]bool{}}
+	r.stats.GCKinds = map[string]bool{}
+	defer func() {
+		if r.s != nil {
+			closeQuietly(r.s)
+		}
+	}()
+	pc := newPointCounter()
+	pc.install()
+	defer pc.uninstall()
+	v := guard(0, "recovered-closure", func() *Violation {
+		for _, ks := range c.Seq.Keys {
+			got, found, err := s.Get(ks.Encode(c.Seq.Cfg.Primary, false))
+			if err != nil {
+				return nil // C03's subject
+			}
+			if found {
+				r.model[string(ks.Digest)] = append([]byte{}, got...)
+			}
+		}
+		return c11Closure(r, 0, c, pc, &cs, false)
+	})
+	return v, cs
 }
